@@ -517,7 +517,7 @@ Section Inv.
     destruct (Z.eqb t (t0 W o)) eqn:E0.
     - apply Z.eqb_eq in E0. simpl. split; [apply assign_dyn_go_inv; auto | auto].
     - destruct (tf W o) as [f|] eqn:F; [|simpl; auto].
-      destruct (Z.ltb f t); [simpl; auto|]. destruct (Z.ltb t (t0 W o)); [simpl; auto|].
+      destruct (Z.ltb f t || Z.ltb t (t0 W o)); [simpl; auto|].
       simpl. split; [apply assign_dyn_go_inv; auto; right; congruence | auto].
   Qed.
 
@@ -858,4 +858,210 @@ Proof.
   assert (I : Inv W false none s) by (apply reachable_inv; [exact H | discriminate]).
   destruct (remove_clears W false s o I Hp) as [A [B [C D]]]. fold s' in A, B, C, D.
   split; [exact A|]. split; [exact B|]. unfold present. apply orb_false_iff. split; apply memZ_false; assumption.
+Qed.
+
+(* ================================================================== assigning everything *)
+Lemma dget_dset_same t v d : dget t (dset t v d) = Some v.
+Proof.
+  induction d as [|[k w] r IH]; simpl; [rewrite Z.eqb_refl; reflexivity|].
+  destruct (Z.eqb k t) eqn:E; simpl; rewrite ?Z.eqb_refl, ?E; auto.
+Qed.
+Lemma dget_dset_other t v d t' : t' <> t -> dget t' (dset t v d) = dget t' d.
+Proof.
+  intro N. induction d as [|[k w] r IH]; simpl.
+  - destruct (Z.eqb t t') eqn:E; [apply Z.eqb_eq in E; congruence | reflexivity].
+  - destruct (Z.eqb k t) eqn:E; simpl.
+    + apply Z.eqb_eq in E. subst k. destruct (Z.eqb t t') eqn:E'; [apply Z.eqb_eq in E'; congruence | reflexivity].
+    + destruct (Z.eqb k t'); [reflexivity | exact IH].
+Qed.
+
+Lemma zrange_In a n t : In t (zrange a n) <-> a <= t < a + Z.of_nat n.
+Proof.
+  revert a. induction n as [|n IH]; intro a; simpl zrange.
+  - simpl. lia.
+  - simpl In. rewrite IH. lia.
+Qed.
+
+Section Full.
+  Variable W : world.
+  (* the trajectory of a prediction does not end before the initial state *)
+  Definition wf : Prop := forall o f, tf W o = Some f -> t0 W o <= f.
+
+  Definition init_ok (s : st) (o : Z) : Prop :=
+    ish s o = Some (sm W o (t0 W o)) /\ ic s o = Some (cin W o (t0 W o)).
+  Definition dict_ok (s : st) (o t : Z) : Prop :=
+    dget t (opt_dict (sa s o)) = Some (sm W o t) /\ dget t (opt_dict (ca s o)) = Some (cin W o t).
+  Definition same_attrs (s s' : st) (o : Z) : Prop :=
+    ish s' o = ish s o /\ ic s' o = ic s o /\ opt_dict (sa s' o) = opt_dict (sa s o) /\ opt_dict (ca s' o) = opt_dict (ca s o).
+  Definition in_range (o t : Z) : Prop :=
+    t = t0 W o \/ exists f, tf W o = Some f /\ t0 W o < t <= f.
+
+  Lemma same_attrs_refl s o : same_attrs s s o.
+  Proof. unfold same_attrs. auto. Qed.
+  Lemma same_attrs_trans s1 s2 s3 o : same_attrs s1 s2 o -> same_attrs s2 s3 o -> same_attrs s1 s3 o.
+  Proof. unfold same_attrs. intros [A [B [C D]]] [A' [B' [C' D']]]. repeat split; congruence. Qed.
+  Lemma same_attrs_init_ok s s' o : same_attrs s s' o -> init_ok s o -> init_ok s' o.
+  Proof. unfold same_attrs, init_ok. intros [A [B _]] [C D]. split; congruence. Qed.
+  Lemma same_attrs_dict_ok s s' o t : same_attrs s s' o -> dict_ok s o t -> dict_ok s' o t.
+  Proof. unfold same_attrs, dict_ok. intros [_ [_ [A B]]] [C D]. rewrite A, B. auto. Qed.
+
+  (* one executed assignment of obstacle o at time step t, use_center_only=False *)
+  Lemma go_effect s o t :
+    let s' := assign_dyn_go W false o t s in
+    (forall o', o' <> o -> same_attrs s s' o') /\
+    (init_ok s o -> init_ok s' o) /\ (forall t', dict_ok s o t' -> dict_ok s' o t') /\
+    (t = t0 W o -> init_ok s' o) /\ (tf W o <> None -> dict_ok s' o t).
+  Proof.
+    intro s'. unfold s', assign_dyn_go, same_attrs, init_ok, dict_ok. simpl.
+    split; [|split; [|split; [|split]]].
+    - intros o' N. destruct (Z.eqb t (t0 W o)); destruct (tf W o); simpl; rewrite ?upd_other by exact N; auto.
+    - intros [A B]. destruct (Z.eqb t (t0 W o)) eqn:E; simpl; [|auto].
+      apply Z.eqb_eq in E. subst t. rewrite !upd_same. auto.
+    - intros t' [A B]. destruct (tf W o); [|auto]. rewrite !upd_same. simpl.
+      destruct (Z.eq_dec t' t) as [->|N].
+      + rewrite !dget_dset_same. auto.
+      + rewrite !dget_dset_other by exact N. auto.
+    - intro E. subst t. rewrite Z.eqb_refl. simpl. rewrite !upd_same. auto.
+    - intro F. destruct (tf W o); [|congruence]. rewrite !upd_same. simpl. rewrite !dget_dset_same. auto.
+  Qed.
+
+  Lemma at_effect s o t :
+    let r := assign_dyn_at W false o t s in
+    snd r = Done /\
+    (forall o', o' <> o -> same_attrs s (fst r) o') /\
+    (init_ok s o -> init_ok (fst r) o) /\ (forall t', dict_ok s o t' -> dict_ok (fst r) o t') /\
+    (in_range o t -> (t = t0 W o -> init_ok (fst r) o) /\ (tf W o <> None -> dict_ok (fst r) o t)).
+  Proof.
+    intro r. unfold r, assign_dyn_at.
+    pose proof (go_effect s o t) as G. cbv zeta in G. destruct G as [G1 [G2 [G3 [G4 G5]]]].
+    destruct (Z.eqb t (t0 W o)) eqn:E0; simpl.
+    - split; [reflexivity|]. split; [exact G1|]. split; [exact G2|]. split; [exact G3|].
+      intros _. split; [exact G4 | exact G5].
+    - apply Z.eqb_neq in E0. destruct (tf W o) as [f|] eqn:F.
+      + destruct (Z.ltb f t || Z.ltb t (t0 W o)) eqn:R; simpl.
+        * split; [reflexivity|]. split; [intros; apply same_attrs_refl|]. split; [auto|]. split; [auto|].
+          intros [H|[f' [Hf H]]]; [congruence|]. assert (f' = f) by congruence. subst f'.
+          apply orb_true_iff in R. destruct R as [R|R]; apply Z.ltb_lt in R; lia.
+        * split; [reflexivity|]. split; [exact G1|]. split; [exact G2|]. split; [exact G3|].
+          intros _. split; [exact G4 | exact G5].
+      + split; [reflexivity|]. split; [intros; apply same_attrs_refl|]. split; [auto|]. split; [auto|].
+        intros [H|[f' [Hf _]]]; congruence.
+  Qed.
+
+  Lemma times_effect o ts : forall s,
+    let r := assign_times W false o ts s in
+    snd r = Done /\
+    (forall o', o' <> o -> same_attrs s (fst r) o') /\
+    (init_ok s o -> init_ok (fst r) o) /\ (forall t', dict_ok s o t' -> dict_ok (fst r) o t') /\
+    (forall t, In t ts -> in_range o t -> (t = t0 W o -> init_ok (fst r) o) /\ (tf W o <> None -> dict_ok (fst r) o t)).
+  Proof.
+    induction ts as [|t r IH]; intro s; simpl.
+    - repeat split; auto; try (intros; apply same_attrs_refl); contradiction.
+    - destruct (at_effect s o t) as [A1 [A2 [A3 [A4 A5]]]].
+      destruct (assign_dyn_at W false o t s) as [s1 out] eqn:E. simpl in *. subst out.
+      destruct (IH s1) as [B1 [B2 [B3 [B4 B5]]]].
+      split; [exact B1|]. split; [|split; [|split]].
+      + intros o' N. eapply same_attrs_trans; [apply A2 | apply B2]; exact N.
+      + auto.
+      + auto.
+      + intros t' [H|H] R.
+        * subst t'. destruct (A5 R) as [C1 C2]. split; [intro X; apply B3; auto | intro X; apply B4; auto].
+        * apply B5; assumption.
+  Qed.
+
+  Definition full (s : st) (o : Z) : Prop :=
+    init_ok s o /\ (kind W o = Dynamic -> tf W o <> None -> forall t, In t (horizon W o) -> dict_ok s o t).
+
+  Lemma same_attrs_full s s' o : same_attrs s s' o -> full s o -> full s' o.
+  Proof.
+    intros S [A B]. split; [eapply same_attrs_init_ok; eauto|].
+    intros K F t Ht. eapply same_attrs_dict_ok; eauto.
+  Qed.
+
+  Lemma horizon_range (Hwf : wf) o : In (t0 W o) (horizon W o) /\ forall t, In t (horizon W o) -> in_range o t.
+  Proof.
+    unfold horizon, in_range. destruct (tf W o) as [f|] eqn:F.
+    - pose proof (Hwf o f F) as L. split.
+      + apply zrange_In. rewrite Z2Nat.id by lia. lia.
+      + intros t Ht. apply zrange_In in Ht. rewrite Z2Nat.id in Ht by lia.
+        destruct (Z.eq_dec t (t0 W o)); [left; assumption | right; exists f; split; [reflexivity | lia]].
+    - split; [left; reflexivity|]. intros t [H|[]]. left. congruence.
+  Qed.
+
+  Lemma one_effect (Hwf : wf) o s :
+    let r := assign_one W None false o s in
+    snd r = Done /\ full (fst r) o /\ (forall o', o' <> o -> same_attrs s (fst r) o').
+  Proof.
+    intro r. unfold r, assign_one. destruct (kind W o) eqn:K.
+    - (* static *)
+      simpl. split; [reflexivity|]. split.
+      + split; [unfold init_ok; simpl; rewrite !upd_same; auto | congruence].
+      + intros o' N. unfold same_attrs. simpl. rewrite !upd_other by exact N. auto.
+    - match goal with |- context[assign_times W false o ?T ?S1] => set (s1 := S1) end.
+      assert (P : forall o', o' <> o -> same_attrs s s1 o').
+      { intros o' N. unfold s1, same_attrs. destruct (tf W o); [|auto]. simpl.
+        destruct (ca s o); destruct (sa s o); rewrite ?upd_other by exact N; auto. }
+      destruct (times_effect o (horizon W o) s1) as [B1 [B2 [B3 [B4 B5]]]].
+      destruct (horizon_range Hwf o) as [H0 HR].
+      split; [exact B1|]. split.
+      + split.
+        * destruct (B5 (t0 W o) H0 (HR _ H0)) as [C _]. apply C. reflexivity.
+        * intros _ F t Ht. destruct (B5 t Ht (HR _ Ht)) as [_ C]. apply C. exact F.
+      + intros o' N. eapply same_attrs_trans; [apply P | apply B2]; exact N.
+  Qed.
+
+  Lemma ids_effect (Hwf : wf) ids : forall s,
+    let r := assign_ids W None false ids s in
+    snd r = Done /\ (forall o, In o ids -> full (fst r) o) /\ (forall o, full s o -> full (fst r) o).
+  Proof.
+    induction ids as [|o rest IH]; intro s; simpl.
+    - repeat split; auto. contradiction.
+    - destruct (one_effect Hwf o s) as [A1 [A2 A3]].
+      destruct (assign_one W None false o s) as [s1 out] eqn:E. simpl in *. subst out.
+      destruct (IH s1) as [B1 [B2 B3]].
+      assert (KP : forall x, full s x -> full s1 x).
+      { intros x Fx. destruct (Z.eq_dec x o) as [->|N]; [exact A2 | eapply same_attrs_full; [apply A3; exact N | exact Fx]]. }
+      split; [exact B1|]. split.
+      + intros x [H|H]; [subst x; apply B3; exact A2 | apply B2; exact H].
+      + intros x Fx. apply B3. apply KP. exact Fx.
+  Qed.
+
+  (* assign_obstacles_to_lanelets never raises, whatever the arguments *)
+  Lemma at_done c o t s : snd (assign_dyn_at W c o t s) = Done.
+  Proof.
+    unfold assign_dyn_at. destruct (Z.eqb t (t0 W o)); [reflexivity|]. destruct (tf W o); [|reflexivity].
+    destruct (Z.ltb z t || Z.ltb t (t0 W o)); reflexivity.
+  Qed.
+  Lemma times_done c o ts : forall s, snd (assign_times W c o ts s) = Done.
+  Proof.
+    induction ts as [|t r IH]; intro s; simpl; [reflexivity|].
+    pose proof (at_done c o t s) as H. destruct (assign_dyn_at W c o t s) as [s1 out]. simpl in H. subst out. apply IH.
+  Qed.
+  Lemma one_done ts c o s : snd (assign_one W ts c o s) = Done.
+  Proof. unfold assign_one. destruct (kind W o); [reflexivity | apply times_done]. Qed.
+  Lemma ids_done ts c ids : forall s, snd (assign_ids W ts c ids s) = Done.
+  Proof.
+    induction ids as [|o r IH]; intro s; simpl; [reflexivity|].
+    pose proof (one_done ts c o s) as H. destruct (assign_one W ts c o s) as [s1 out]. simpl in H. subst out. apply IH.
+  Qed.
+  Lemma assign_done ts ids c s : snd (assign W ts ids c s) = Done.
+  Proof. unfold assign. apply ids_done. Qed.
+End Full.
+
+Lemma reachable_assign_all W ops : wf W -> all_ok W ops init = true ->
+  let s := run W ops init in
+  let r := assign W None None false s in
+  snd r = Done /\
+  (forall o, present s o = true ->
+     ish (fst r) o = Some (sm W o (t0 W o)) /\ ic (fst r) o = Some (cin W o (t0 W o))) /\
+  (forall o, In o (dynamics s) -> tf W o <> None -> forall t, In t (horizon W o) ->
+     dget t (opt_dict (sa (fst r) o)) = Some (sm W o t) /\ dget t (opt_dict (ca (fst r) o)) = Some (cin W o t)).
+Proof.
+  intros Hwf H s r.
+  assert (I : Inv W false none s) by (apply reachable_inv; [exact H | discriminate]).
+  destruct (ids_effect W Hwf (statics s ++ dynamics s) s) as [A [B _]].
+  split; [exact A|]. split.
+  - intros o Hp. apply present_In in Hp. destruct (B o) as [C _]; [apply in_or_app; exact Hp | exact C].
+  - intros o Ho F t Ht. destruct (B o) as [_ C]; [apply in_or_app; right; exact Ho|].
+    apply C; [apply (kind_d _ _ _ _ I); exact Ho | exact F | exact Ht].
 Qed.
